@@ -168,6 +168,12 @@ func (e *run) modelChecks(c Case, w *world, local, cluster Outcome, calls []clus
 			e.disagree(d, caseJSON, map[string]interface{}{"pushdown": impl, "level": i, "plan": cluster.Plan}, map[string]interface{}{"pushdown": m.Allowed, "request": req}, idx)
 		}
 	}
+	// ---- the IN-subqueries the leader resolves: decision and partition-side SQL of each
+	used := make([]bool, len(calls))
+	if err := e.subQueryTie(c, chain, level, calls, used, caseJSON, idx); err != nil {
+		return err
+	}
+	e.leftoverSubQueryCalls(calls, used, caseJSON, idx)
 	// ---- the partition-side SQL of the non-pushdown path
 	if !flat {
 		var main *clusterCall
@@ -394,7 +400,10 @@ func (w *world) resolveSubQueries(where goexpr.Expr) error {
 		}
 		uniq := map[interface{}]bool{}
 		_, err = plan.Iterate(context.Background(), core.FieldsIgnored, func(row *core.FlatRow) (bool, error) {
-			uniq[row.Key.Get(sq.Dim)] = true
+			// since /repo 4ea8e1b a sub-query row that lacks the dimension contributes no value
+			if v := row.Key.Get(sq.Dim); v != nil {
+				uniq[v] = true
+			}
 			return true, nil
 		})
 		if err != nil {
